@@ -473,11 +473,11 @@ func resolveTraceePathOnce(pid int, p string) (string, bool) {
 			cur = candidate
 			continue
 		}
-		target = normalizeProcMagicPath(pid, target)
 		if !filepath.IsAbs(target) {
 			target = filepath.Join(filepath.Dir(candidate), target)
 		}
-		target = filepath.Clean(target)
+		// a relative target may climb into /proc/self as well: normalize once the target is absolute
+		target = normalizeProcMagicPath(pid, target)
 
 		if i+1 < len(rest) {
 			target = filepath.Join(target, filepath.Join(rest[i+1:]...))
